@@ -7,5 +7,5 @@ mkdir -p target evidence
 ( cd harness && cargo build --offline --features hooks --bin lolv )
 ( cd harness && cargo build --offline --features int,hooks --bin lolv-int )
 # C API harness: ASan build on nightly (falls back to the plain build inside the check if this fails)
-( cd capi && RUSTFLAGS="-Zsanitizer=address --cfg lolv_asan" CARGO_TARGET_DIR=/verif/target-capi-asan cargo +nightly build --offline --target x86_64-unknown-linux-gnu ) || ( cd capi && CARGO_TARGET_DIR=/verif/target-capi cargo build --offline )
+( cd capi && RUSTFLAGS="-Zsanitizer=address --cfg lolv_asan" CARGO_TARGET_DIR="$PWD/target-capi-asan" cargo +nightly build --offline --target x86_64-unknown-linux-gnu ) || ( cd capi && CARGO_TARGET_DIR="$PWD/target-capi" cargo build --offline )
 echo setup done
